@@ -443,6 +443,12 @@ class Monitor:
                 self.alive[i] = {"mkpair": "c", "mklisten": "l", "mkconn": "e"}[op]
         elif op == "adv":
             self.clock += int(t[1])
+        elif op == "clear":
+            # Server::clear(): every object is destroyed; none of them may be called back afterwards
+            self.alive = {}
+            self.timers = {}
+            self.suspended = set()
+            self.pending_close = []
         elif op == "pclose":
             if self.alive.get(int(t[1])) == "c" and int(t[1]) < 1000:
                 self.closed_peer.add(int(t[1]))
@@ -561,7 +567,7 @@ def c14_timer_reference(hist):
     """Independent reference scheduler for histories that contain timers only (no sockets):
     predicts the complete output of every op."""
     timers, used, scripts, calls, order = {}, set(), {}, {}, []
-    state = {"clock": 1000, "seq": 1, "intr": False, "default": (0, 0)}
+    state = {"clock": 1000, "seq": 1, "intr": False, "default": (0, 0), "efd": False}
     out = []
 
     def live():
@@ -579,7 +585,9 @@ def c14_timer_reference(hist):
         elif a[0] == "rmt":
             timers.pop(int(a[1]), None)
         elif a[0] == "intr":
-            state["intr"] = True
+            if not state["intr"]:
+                state["intr"] = True
+                state["efd"] = True
 
     for line in hist:
         t = line.split()
@@ -592,10 +600,20 @@ def c14_timer_reference(hist):
         elif t[0] == "adv":
             state["clock"] += int(t[1])
             out.append("ok | " + live())
+        elif t[0] == "clear":
+            # pools and queue emptied, default timer re-inserted, flag reset — the event descriptor keeps its signal
+            timers.clear()
+            state["intr"] = False
+            state["default"] = (0, state["seq"])
+            state["seq"] += 1
+            out.append("ok | " + live())
+        elif t[0] in ("failmk", "opt"):
+            out.append("ok | " + live())
         elif t[0] in ("run", "runmt"):
             entries = list(t[2:]) if t[0] == "run" else []
-            if t[0] == "runmt":
+            if t[0] == "runmt" and not state["intr"]:
                 state["intr"] = True
+                state["efd"] = True
             log = []
             for _ in range(100000):
                 now = state["clock"]
@@ -616,12 +634,19 @@ def c14_timer_reference(hist):
                     for a in scripts.get((i, k), []):
                         act(a)
                 e = entries.pop(0) if entries else "I"
-                if e.startswith("I"):
+                if e.startswith("I") and not state["intr"]:
                     state["intr"] = True
-                if state["intr"]:
-                    state["intr"] = False
-                    log.append(f"ret@{state['clock']}")
-                    break
+                    state["efd"] = True
+                if state["efd"]:
+                    # the event descriptor is reported and read; run() returns only when the flag is set (after clear() it is not)
+                    state["efd"] = False
+                    if "+" in e:
+                        state["clock"] += int(e.split("+")[1])
+                    if state["intr"]:
+                        state["intr"] = False
+                        log.append(f"ret@{state['clock']}")
+                        break
+                    continue
                 nxt = min([v[0] for v in timers.values()] + [state["default"][0]])
                 state["clock"] += nxt - now
             out.append(" ".join(log) + " | " + live())
@@ -631,7 +656,7 @@ def c14_timer_reference(hist):
 
 
 def c14_reference(hist, impl_out):
-    pure = all(l.split()[0] in ("script", "act", "adv", "run", "runmt") for l in hist) and \
+    pure = all(l.split()[0] in ("script", "act", "adv", "run", "runmt", "clear", "failmk", "opt") for l in hist) and \
         all(a[0] in ("mk", "rmt", "intr") for l in hist if l.split()[0] in ("script", "act")
             for a in (parse_acts(l.split()[3]) if l.split()[0] == "script" else [l.split()[1].split(":")]))
     if pure:
@@ -760,12 +785,15 @@ def c14_mixed_history(rng, with_net=True):
             elif r < 0.85: h.append("act " + rand_act(rng.choice(allc)))
             elif r < 0.88 and ests: h.append(f"cfail {rng.choice(ests)}")
             elif r < 0.9: h.append(f"adv {rng.randint(0, 3)}")
+            elif r < 0.93: h.append(rng.choice(["failmk pair", "failmk listen", "failmk connect", "opt keepalive 1", "opt keepalive 0",
+                                                 "opt sndbuf 16384", "opt rcvbuf 16384", "opt reuse 0", "opt reuse 1"]))
             else: h.append("act intr")
         entries = []
         for _ in range(rng.randint(0, 10)):
             r = rng.random()
             ids = rng.sample(socks, min(len(socks), rng.randint(0, 5)))
-            e = ",".join(map(str, ids)) if ids else "-"
+            # `id!`: a listener reported ready although its accept queue is empty (the accept that follows fails)
+            e = ",".join(str(x) + ("!" if x in listeners and rng.random() < 0.25 else "") for x in ids) if ids else "-"
             if rng.random() < 0.3: e += f"+{rng.randint(0, 3)}"
             if r < 0.08: e = "I" + ("" if e.startswith("-") else e)
             entries.append(e)
@@ -910,7 +938,6 @@ C14_BRANCHES = [
 C14_UNREACHABLE = {
     "c.delete": "Server.cpp 277: a client without callback / with _removed is deleted by the hand-over code before the closing loop sees it (repaired code)",
     "d.write.empty.onWrite": "Server.cpp 387-392 entered with an empty send buffer: excluded by theorem onWrite_needs_backlog / client_interest (write interest iff backlog)",
-    "d.accept.failed": "Server.cpp 375: accept() failing after the listener was reported readable (peer aborted in between) is not reproducible on loop-back; HOLE in the tie",
     "t.fault": "", "c.fault": "", "d.write.fault": "", "d.accept.fault": "", "d.connect.fault": "",
 }
 
@@ -939,6 +966,36 @@ def c14_branch_hits(histories):
                     tot[k] = tot.get(k, 0) + int(v)
     return tot
 
+
+
+def c14_clear_history(rng):
+    """a random first life (mixed or timers only), optionally an un-consumed interrupt(), Server::clear(), then a second life
+    with new ids in the freed pool slots; the monitor requires that no object of the first life is ever called back again"""
+    pure = rng.random() < 0.4
+    h = c14_timer_history(rng, equal_due=rng.random() < 0.5) if pure else c14_mixed_history(rng, with_net=rng.random() < 0.6)
+    if rng.random() < 0.5:
+        h.append("act intr")
+    h.append("clear")
+    if rng.random() < 0.2:
+        h.append("clear")
+    if pure:
+        n = rng.randint(1, 4)
+        for i in range(n):
+            h.append(f"act mk:{90 + i}:{rng.randint(1, 3)}")
+        if rng.random() < 0.5:
+            h.append(f"script 90 0 rmt:{90 + rng.randint(0, n - 1)},mk:99:1")
+        h.append("run all " + " ".join("-" for _ in range(rng.randint(1, 6))))
+        if rng.random() < 0.3:
+            h += ["act intr", "clear", "act mk:98:2", "run all - - -"]
+        return h
+    h += ["mkpair 80", "mkpair 81", "mklisten 82", "dial 82", f"act mk:83:{rng.randint(1, 3)}", "psend 80 3", "psend 81 3"]
+    acts = ["rmc:81", "sus:81", "wr:81:40:half", "rd:80", "mk:84:1", "intr", "rml:82", "rmc:80"]
+    for i in (80, 81, 82, 83):
+        if rng.random() < 0.6:
+            h.append(f"script {i} 0 {','.join(rng.sample(acts, rng.randint(1, 2)))}")
+    order = rng.sample([80, 81, 82], 3)
+    h.append(f"run {rng.choice(['all', 'half', 'wb'])} " + ",".join(map(str, order)) + " - " + ",".join(map(str, order)) + " - -")
+    return h
 
 
 def c14_branch_tour():
@@ -971,6 +1028,11 @@ def c14_branch_tour():
         ["mkconn 1", "script 1 0 rme:1", "run all 1 -"],                                          # establisher removing itself inside onConnected
         ["mkconn 2", "cfail 2", "script 2 0 rme:2", "run all 2 -"],                               # … inside onAbolished
         ["mkconn 2", "cfail 2", "run all 2 - 2 -"],                                               # an establisher gets exactly one outcome
+        ["mklisten 1", "run all 1! -", "dial 1", "run all 1! 1! -"],                              # accept() failing after a (spurious) readiness report
+        ["mkpair 1", "act mk:2:5", "act intr", "clear", "run all - -", "mkpair 3", "psend 3 2", "run all 3 -"],   # clear() with an un-consumed interrupt
+        ["mkpair 1", "psend 1 3", "mklisten 2", "dial 2", "mkconn 3", "act wr:1:40:2", "run all I1,2,3", "clear", "run all - -"],  # clear() with a pending batch
+        ["failmk pair", "failmk listen", "failmk connect", "mkpair 1", "psend 1 1", "run all 1 -"],
+        ["opt keepalive 1", "opt sndbuf 8192", "opt rcvbuf 8192", "opt reuse 0", "mkpair 1", "mklisten 2", "dial 2", "mkconn 3", "psend 1 2", "run all 1,2,3 -"],
     ]
 
 
@@ -1032,17 +1094,18 @@ def check_c14(ctx):
         ex2 = c14_pending_exhaustive()
         ex3 = c14_closing_wave_histories(random.Random(12345))
         tour = c14_branch_tour()
+        clr = [c14_clear_history(rng) for _ in range(1200 if quick else 12000)]
         mt = c14_threaded_interrupt_histories(rng, 150 if quick else 1500)
         nt, nm = (6000, 9000) if quick else (60000, 90000)
         if not proof_ok:
             nt, nm = nt * 3, nm * 3
         tim = [c14_timer_history(rng, equal_due=(k % 2 == 0)) for k in range(nt)]
         mix = [c14_mixed_history(rng, with_net=(k % 3 != 0)) for k in range(nm)]
-        hs = hs + tour + ex + ex2 + ex3 + mt + tim + mix
+        hs = hs + tour + ex + ex2 + ex3 + mt + clr + tim + mix
         ctx.cov["rule"] = (f"corpus ({ncorpus}) + branch tour ({len(tour)} deterministic histories, one per rare branch / situation of run()) + exhaustive equal-due scope: 1..8 timers created in one virtual millisecond with equal interval, "
                            f"remove(timer r) for every r before run / between runs / from the callback of every timer q ({len(ex)} histories) + "
                            f"closing-wave family: 9/12 live clients all failing a read/write in one loop iteration in 5 orders x 10-11 immediate-remove patterns, remove inside onClosed, re-creation in freed slots and a second wave ({len(ex3)} histories; monitor: exactly one onClosed per failed-and-not-removed client, none for removed ones) + "
-                           f"{len(mt)} programs with interrupt() from a real second thread while run() blocks in the real epoll_wait with idle clients, listeners and timers registered + "
+                           f"{len(clr)} clear() programs (random first life, optionally an un-consumed interrupt(), Server::clear(), second life with new ids; monitor: no callback to an object of the first life) + {len(mt)} programs with interrupt() from a real second thread while run() blocks in the real epoll_wait with idle clients, listeners and timers registered + "
                            f"exhaustive pending-event scope: 2 clients + listener + establisher reported by one epoll_wait in all 24 orders, the first callback removes any of the four ({len(ex2)} histories) + "
                            f"{len(tim)} random timer programs (1..8 timers, intervals 1..3, create/remove/interrupt inside callbacks, interrupt before/during run) + "
                            f"{len(mix)} random mixed programs (1..4 socket-pair clients, 0..2 loop-back listeners with dialling peers, 0..2 establishers, 0..3 timers; "
